@@ -626,7 +626,16 @@ func (l *commitLog) Truncate(offset int64) error {
 	atomic.StorePointer((*unsafe.Pointer)(unsafe.Pointer(&l.vActiveSegment)),
 		unsafe.Pointer(activeSegment))
 	l.segments = segments
-	return l.leaderEpochCache.ClearLatest(offset)
+	// Forget the leader epochs that start at or after the truncation point.
+	// If an interrupted clean or truncation has left a hole below it, the log
+	// now ends before the offset: an epoch that starts beyond the new end has
+	// no message left either, and keeping it would make the cache refuse the
+	// next epoch as "out of order".
+	end := offset
+	if next := activeSegment.NextOffset(); next < end {
+		end = next
+	}
+	return l.leaderEpochCache.ClearLatest(end)
 }
 
 func (l *commitLog) Segments() []*segment {
